@@ -92,6 +92,7 @@ type Sched struct {
 	nextChan int
 	seq      int
 	switches int
+	inInit   int
 	maxGs    int
 }
 
@@ -434,6 +435,14 @@ func (s *Sched) deadlock() {
 
 // yield is called by the running goroutine before a visible operation.
 func (s *Sched) yield(g *goroutine, op *pendingOp) {
+	if s.inInit > 0 {
+		// package initialisers run atomically (lazily, inside whichever run first touches the package):
+		// they must not contribute scheduling decisions, or a run would depend on worker history
+		if !s.opReady(op) {
+			panic(unsupported{"package initialiser blocks on " + op.desc})
+		}
+		return
+	}
 	if g == nil {
 		g = s.cur
 	}
